@@ -108,6 +108,24 @@ def run(ctx):
                      {"dag": d, "route": "foreign", "boc": h})
     ctx.extra["foreign_stored_hash_parses"] = nf
 
+    # an exotic leaf and an ordinary leaf with IDENTICAL data bits, in one bag and in two bags parsed one after the
+    # other: the parsed cells must keep their own types, masks and hashes (no result may depend on an earlier parse)
+    nt = 0
+    for _ in range(ctx.n(20, 200)):
+        h = rng.randbytes(32)
+        lib = cells.library_node(h)
+        m = rng.choice([1, 2, 3, 5, 7])
+        k = bin(m).count("1")
+        pr = cells.pruned_node(m, [rng.randbytes(32) for _ in range(k)], [rng.randrange(100) for _ in range(k)])
+        for ex in (lib, pr):
+            twin = (-1, ex[1], [])
+            for d in ([twin, ex, (-1, "1", [0, 1])], [ex, twin, (-1, "1", [0, 1])]):
+                nt += 1
+                r = core.call_impl(lambda _: twin_case(d, [twin], ex), None)
+                if r != "ok":
+                    ctx.fail("exotic-leaf-confused-with-ordinary-twin", r, {"dag": d, "twin": 1})
+    ctx.extra["twin_cases"] = nt
+
     # pruning invariance on the implementation
     npr = 0
     for _ in range(ctx.n(150, 2000)):
@@ -153,6 +171,26 @@ def spec_valid(d):
             return False
         masks.append(m)
     return True
+
+
+def twin_case(d, first, ex):
+    """parse a bag holding only the ordinary twin, then the bag d, then a bag holding only the exotic cell"""
+    import random
+    from pytoniq_core.boc.cell import Cell
+    want = cells.ref_hd(d)
+    rr = random.Random(5)
+    Cell.one_from_boc(boc.foreign_encode(rr, first, freedoms=False)[0])
+    root = Cell.one_from_boc(boc.foreign_encode(rr, d, freedoms=False)[0])
+    alone = Cell.one_from_boc(boc.foreign_encode(rr, [ex], freedoms=False)[0])
+    for c, w, what in ((root.refs[0], want[0], "first leaf"), (root.refs[1], want[1], "second leaf"), (root, want[2], "root"),
+                       (alone, cells.ref_hd([ex])[0], "exotic cell parsed alone afterwards")):
+        if w is None:
+            continue
+        if c.level_mask.mask != w[0] or [c.get_hash(l) for l in range(4)] != w[1]:
+            return f"{what}: type {c.type_}, mask {c.level_mask.mask}: not the cell the bag holds"
+    if root.refs[0].type_ != d[0][0] or root.refs[1].type_ != d[1][0]:
+        return "leaf types swapped"
+    return "ok"
 
 
 def _foreign_route(h):
@@ -221,6 +259,11 @@ def check_prune(case):
 
 def replay(ctx, obj):
     c = obj["case"]
+    if c.get("twin"):
+        d = [(t, b, list(r)) for t, b, r in c["dag"]]
+        ex = d[0] if d[0][0] != -1 else d[1]
+        r = core.call_impl(lambda _: twin_case(d, [(-1, ex[1], [])], ex), None)
+        return None if r == "ok" else r
     if "dag" in c:
         d = [(t, b, list(r)) for t, b, r in c["dag"]]
         a = core.call_impl(lambda _: cells.info_py(cells.build_py(d)[-1]), None)
